@@ -14,6 +14,8 @@ Four groups of obligations, all on the real halmos code of VERIF_REPO_SRC:
 2. Route A (lib/c18_timeout.py): `ParseTimeout.unparse` and `parse_time` are translated from the AST to QF_FPBV and z3
    searches for an integer N with parse(unparse(parse("N<unit>"))) != parse("N<unit>"); models are replayed on the
    real class.  The translator is validated against the real functions on a grid first.
+   lib/c18_strsmt.py does the same for the CSV kernels of ParseCSVInt / ParseErrorCodes (SMT-LIB strings, cvc5) as a
+   second engine next to CrossHair (hex formatting makes CrossHair realise the value).
 3. Annotation scoping through the real `_main` (lib/c18_e2e.py): per scenario the Config objects every function and
    contract actually ran with are compared (value and source) with an independent reference.
 """
@@ -44,18 +46,18 @@ CLASSES = [("prec_", "precedence"), ("solver_cmd_", "solver-command"), ("toml_",
 
 # rough single-core seconds (measured), used only to start the long conditions first
 COST = {"solver_cmd_3": 900, "rej_timeout_3": 900, "rej_csvint_3": 400, "rej_errcodes_3": 400, "rej_arrlen_3": 300,
-        "rej_events_3": 200, "rt_errcodes_1w": 260, "prec_all_3": 200, "rt_csvint_3": 100, "solver_cmd_2": 106,
+        "rej_events_3": 200, "rt_errcodes_1": 100, "prec_all_3": 200, "rt_csvint_3": 100, "solver_cmd_2": 106,
         "rej_timeout_2": 106, "prec_enum_3": 107, "rt_arrlen_3": 116, "rt_arrlen_2": 80, "toml_norm": 60,
         "rt_csvint_2": 40, "rt_arrlen_1": 50, "rej_csvint_2": 42, "rej_errcodes_2": 40}
 
 QUICK = (["prec_%s_%d" % (o, k) for o in ("int", "bool", "struct") for k in (1, 2, 3)]
          + ["prec_all_1", "prec_all_2", "prec_enum_1", "prec_enum_2", "solver_cmd_1", "solver_cmd_2",
             "toml_norm", "toml_sections", "toml_unknown_0", "toml_unknown_1", "toml_unknown_2", "toml_unknown_3",
-            "rt_csvint_1", "rt_csvint_2", "rt_csvint_3", "rt_errcodes_1", "rt_errcodes_2", "rt_errcodes_3",
+            "rt_csvint_1", "rt_csvint_2", "rt_errcodes_1", "rt_errcodes_2", "rt_errcodes_3",
             "rt_arrlen_1", "rt_arrlen_2", "rt_events",
             "rej_timeout_2", "rej_csvint_2", "rej_errcodes_2", "rej_arrlen_2", "rej_events_2"])
 THOROUGH_EXTRA = (["prec_%s_%d" % (o, k) for o in ("int", "bool", "struct") for k in (4, 5)]
-                  + ["prec_all_3", "prec_enum_3", "solver_cmd_3", "rt_errcodes_1w", "rt_arrlen_3",
+                  + ["prec_all_3", "prec_enum_3", "solver_cmd_3", "rt_csvint_3", "rt_arrlen_3",
                      "rej_timeout_3", "rej_csvint_3", "rej_errcodes_3", "rej_arrlen_3", "rej_events_3"])
 
 
@@ -83,8 +85,9 @@ def timeout_queries(tier: str):
     return [
         # (id, unit, lo, hi, extra, expectation note)
         ("ms<1000", "ms", 0, 999, None),
+        ("ms:1000..1999", "ms", 1000, 1999, None),
         ("ms>=1000", "ms", 1000, hi, None),
-        ("ms=k*1000", "ms", 1000, hi, "mult1000"),
+        ("ms=k*1000", "ms", 1000, 10 ** 7, "mult1000"),  # characterises the loss: whole seconds do survive
         ("s", "s", 0, hi, None),
         ("m", "m", 0, small, None),
         ("h", "h", 0, small, None),
@@ -196,6 +199,65 @@ def collect_route_a(run, futs):
 
 
 # ---------------------------------------------------------------------------
+# Route A (strings): CSV kernels -> SMT-LIB strings, cvc5
+# ---------------------------------------------------------------------------
+def strsmt_worker(src_root: str, cls: str, n: int, timeout_s: float) -> dict:
+    from lib import c18_strsmt as X
+
+    try:
+        info = X.extract(src_root)
+        vs, assertions = X.obligation(info[cls], info["parse_csv"], n)
+        res = X.solve(vs, assertions, timeout_s)
+    except X.Unsupported as e:
+        res = {"result": "unsupported", "reason": str(e), "time": 0.0}
+    res.update({"cls": cls, "n": n})
+    return res
+
+
+def route_a_strings(run, tier: str, pool):
+    from lib import c18_strsmt as X
+
+    bad = X.validate_builtins()
+    if bad:
+        run.harness_error(f"string builtin models disagree with the interpreter: {bad[:3]}")
+        return []
+    jobs = [("ParseErrorCodes", 1), ("ParseCSVInt", 1)]
+    if tier == "thorough":
+        jobs += [("ParseCSVInt", 2), ("ParseErrorCodes", 2)]
+    tmo = 150 if tier == "quick" else 900
+    return [pool.submit(strsmt_worker, common.REPO_SRC, c, n, tmo) for c, n in jobs]
+
+
+def collect_route_a_strings(run, futs):
+    from lib import c18_strsmt as X
+
+    cls = "roundtrip-routeA"
+    for fu in futs:
+        try:
+            res = fu.result()
+        except Exception as e:  # noqa: BLE001
+            run.harness_error(f"string route A worker: {type(e).__name__}: {e}")
+            continue
+        key = f"{res['cls']}/n={res['n']}"
+        run.solver_time += res.get("time", 0.0)
+        print(f"  [routeA-str] {key:22s} {res['result']:8s} {res.get('time', 0):6.1f}s {res.get('model', res.get('reason', ''))}",
+              flush=True)
+        if res["result"] == "unsat":
+            run.backend_wins["cvc5-strings"] = run.backend_wins.get("cvc5-strings", 0) + 1
+            run.ok(cls, key)
+        elif res["result"] == "sat":
+            vals = [res["model"][k] for k in sorted(res["model"])]
+            rp = X.replay(res["cls"], vals)
+            if rp["reproduced"]:
+                run.violation(cls, f"roundtrip/{res['cls']}", f"{res['cls']}: {rp['value']} unparses to {rp['unparsed']!r}, "
+                              f"which parses to {rp['reparsed']}", {"kind": "strsmt", "cls": res["cls"], "values": vals, **rp})
+            else:
+                run.inconc(cls, key, f"model {vals} did not reproduce on the real class (builtin-model gap)")
+        else:
+            run.inconc(cls, key, f"{res['result']}: {res.get('reason', '')}")
+
+
+# ---------------------------------------------------------------------------
 # Route P
 # ---------------------------------------------------------------------------
 def select_conditions(run, tier: str, tmp: str):
@@ -204,7 +266,6 @@ def select_conditions(run, tier: str, tmp: str):
     per = {PREC: chx.conditions(PREC), RT: chx.conditions(RT)}
     tw = {f: chx.conditions(chx.make_twin(f, tmp)) for f in per}
     t_main = 180 if tier == "quick" else 1500
-    t_twin = 90 if tier == "quick" else 300
     for n in names:
         if not wanted(run, "chx", n):
             continue
@@ -216,18 +277,19 @@ def select_conditions(run, tier: str, tmp: str):
         c.timeout = t_main
         main.append(c)
         t = tw[f][n]
-        t.twin, t.timeout = True, t_twin
+        t.twin, t.timeout = True, t_main
         twins.append(t)
+    # one crosshair process per (condition, twin) pair -- the twin stops at the first path that reaches the end
+    pairs = {t.name: t for t in twins}
     order = sorted(main, key=lambda c: -COST.get(c.name, 20))
-    # twins are cheap (they stop at the first path that reaches the end); interleave them after the long poles
-    k = min(len(order), 10)
-    return order[:k] + twins + order[k:]
+    return [[c, pairs[c.name]] for c in order]
 
 
 def handle_verdicts(run, conds, verdicts):
     by_name = {}
-    for c, v in zip(conds, verdicts):
-        by_name.setdefault(c.name, {})["twin" if c.twin else "main"] = (c, v)
+    for grp, vs in zip(conds, verdicts):
+        for c, v in zip(grp, vs):
+            by_name.setdefault(c.name, {})["twin" if c.twin else "main"] = (c, v)
     stats = {"confirmed": 0, "twins_refuted": 0}
     for name, d in by_name.items():
         cls = cls_of(name)
@@ -308,6 +370,7 @@ def collect_scoping(run, fut):
     except Exception as e:  # noqa: BLE001
         run.harness_error(f"scoping worker: {type(e).__name__}: {e}")
         return
+    seen, more = set(), {}
     for row in res["rows"]:
         if "error" in row:
             run.harness_error(f"scoping {row['key']}: {row['error']}")
@@ -317,11 +380,17 @@ def collect_scoping(run, fut):
             first = row["again"][0]
             # key by the kind of mismatch and where it was observed, not by the whole scenario
             vkey = f"scoping/{first.get('what', '?').replace(' ', '-')}/{first.get('contract', '?')}"
+            if vkey in seen:  # one VIOLATION line / replay file per failing input class
+                more[vkey] = more.get(vkey, 0) + 1
+                continue
+            seen.add(vkey)
             run.violation(cls, vkey, f"setters [{row['key']}] natspec style {row['style']}: {first}",
                           {"kind": "e2e", "scenario": row["scenario"], "style": row["style"], "mismatches": row["again"]})
         else:
             run.inconc(cls, row["key"], f"mismatch did not reproduce on a second run: {row['bad'][:1]}")
     ex = res["exercised"]
+    if more:
+        run.extra["scoping_more_scenarios_with_same_key"] = more
     run.extra["scoping_exercised"] = ex
     if ex["scenarios"] and not (ex["annotation_wins"] and ex["cli_beats_annotation"] and ex["two_contracts_differ"]):
         run.harness_error(f"scoping scenarios do not exercise the feature: {ex}")
@@ -360,6 +429,10 @@ def do_replay(run, path: str):
         rp = replay_timeout(w["text"])
     elif kind == "chx":
         rp = chx.replay(os.path.join(LIB, w["module"].replace("__reach", "")), w["call"])
+    elif kind == "strsmt":
+        from lib import c18_strsmt as X
+
+        rp = X.replay(w["cls"], w["values"])
     elif kind == "e2e":
         from lib import c18_e2e as E
 
@@ -369,10 +442,16 @@ def do_replay(run, path: str):
         run.harness_error(f"unknown witness kind in {path}")
         return
     print(json.dumps(rp, indent=1, default=str))
+    # a replay re-runs one witness only: report and exit without rewriting evidence/C18.json
     if rp.get("reproduced"):
-        run.violation(blob.get("class", "replay"), blob.get("key", "replay"), blob.get("what", "replayed witness"), w)
-    else:
-        run.ok("replay", "not-reproduced")
+        e = run.match_known(blob.get("key", ""))
+        if e is not None:
+            print(f"KNOWN-FINDING: property=C18 {e['what']} [key={e['key']}]")
+            sys.exit(common.EXIT_OK)
+        print(f"VIOLATION property=C18 replay={path}\n  class={blob.get('class')} key={blob.get('key')}: {blob.get('what')}")
+        sys.exit(common.EXIT_VIOLATION)
+    print("not reproduced")
+    sys.exit(common.EXIT_OK)
 
 
 def main(run):
@@ -392,16 +471,20 @@ def main(run):
                       "value symbolic (unbounded int / bool / dict built from a symbolic int), None flag symbolic; "
                       f"options loop, ffi, array_lengths (+ all three per layer with independent None flags, k <= "
                       f"{2 if tier == 'quick' else 3}); real enum members for k <= {2 if tier == 'quick' else 3}",
-        "solver_command": f"k <= {2 if tier == 'quick' else 3} layers, real ConfigSource members, solver name a symbolic "
-                          "str, command unset / empty / one identifying command per layer",
+        "solver_command": "1 layer: all 5 sources; 2 layers: sources {config file, function annotation, command line} "
+                          "(thorough: all 5); 3 layers (thorough only): those 3 sources; real ConfigSource members, "
+                          "solver name a symbolic str, command unset / empty / one identifying command per layer",
         "toml": "every public Config field x every dash/underscore spelling of its first 4 separators; unknown keys = "
                 "one delete/insert/replace edit (6-char alphabet) of loop, ffi, solver_command, array_lengths; "
                 "0..2 sections from 5 names; internal keys _source/_parent/-source",
-        "roundtrip": "ParseCSVInt: 1..3 ints in [0,2^16) fully symbolic; ParseErrorCodes: sets of <= 3 codes from ranges "
-                     "of <= 40 (quick) / 300 (thorough) values; ParseArrayLengths: <= 3 names, <= 3 lengths each from "
-                     "ranges of <= 12 values; ParseCSVTraceEvent: all lists of <= 3 events",
-        "rejection": f"strings of <= {2 if tier == 'quick' else 3} symbols from per-parser alphabets of 7..11 symbols",
-        "timeout": "integer N in [0,10^7] (thorough 10^9) with unit ms/s/(m,h: 10^5, thorough 10^7)/none, plus any "
+        "roundtrip": "ParseCSVInt: 1..2 (thorough 3) ints in [0,2^16) fully symbolic in CrossHair, n=1 (thorough 2) also by "
+                     "cvc5; ParseErrorCodes: 1 code in [0,40) (thorough [0,300)), sets of <= 3 codes from 6-value ranges, "
+                     "and 1 code in [0,2^16) by cvc5; ParseArrayLengths: <= 2 (thorough 3) names, <= 3 lengths each from "
+                     "ranges of 3..12 values; ParseCSVTraceEvent: all lists of <= 3 events",
+        "rejection": f"strings of <= {2 if tier == 'quick' else 3} symbols from per-parser alphabets of 7..11 symbols "
+                     "(timeouts: 8 symbols for the 2-symbol strings in quick)",
+        "timeout": "integer N in [0,10^7] (thorough 10^9 for the s form and the defect search) with unit ms/s/(m,h: 10^5, "
+                   "thorough 10^7)/none, plus any "
                    "finite double below 1 ms and any integral double in [1,2^40]; decimals 'A.BCDs' with <= 3 fraction "
                    "digits equal the ms form (both are the correctly rounded quotient)",
         "scoping": "2 contracts x 3 functions (shared signature check_f(uint256[])), 8 setters (toml, cli, natspec A/B, "
@@ -426,6 +509,7 @@ def main(run):
                                 "domain (the parser realises the string); decimal round trips and precedence stay "
                                 "symbolic (unbounded ints). ParseArrayLengths has no SMT fallback (re.findall semantics).")
 
+    os.environ["C18_TIER"] = tier  # read by the harness modules (tier-dependent ranges), inherited by crosshair/replay
     err = chx.ensure_venv() if wanted(run, "chx", "x") else None
     tmp = tempfile.mkdtemp(prefix="verif_c18_")
     try:
@@ -440,7 +524,7 @@ def main(run):
                     if run.args.verbose:
                         print(f"  [chx] {'twin ' if c.twin else ''}{v.name:16s} {v.status:14s} {v.elapsed:6.1f}s "
                               f"{v.call or ''}", flush=True)
-                verdicts.extend(chx.run_many(conds, 200, jobs=max(1, min(run.args.jobs, 13)), progress=prog))
+                verdicts.extend(chx.run_many(conds, 200, jobs=max(1, min(run.args.jobs, 11)), progress=prog))
 
             th = threading.Thread(target=bg, daemon=True)
             th.start()
@@ -448,22 +532,23 @@ def main(run):
         futs = []
         import multiprocessing as mp
 
-        pool = cf.ProcessPoolExecutor(max_workers=4, mp_context=mp.get_context("spawn"))
+        pool = cf.ProcessPoolExecutor(max_workers=5, mp_context=mp.get_context("spawn"))
         try:
             sfut = pool.submit(scoping_worker, tier, run.seed) if wanted(run, "e2e", "scoping") else None
             if wanted(run, "timeout", "timeout"):
                 futs = route_a(run, tier, pool)
+            sfuts = route_a_strings(run, tier, pool) if wanted(run, "strsmt", "strsmt") else []
             if sfut is not None:
                 collect_scoping(run, sfut)
             collect_route_a(run, futs)
+            collect_route_a_strings(run, sfuts)
         finally:
             pool.shutdown(wait=True, cancel_futures=True)
         run.extra["observations_not_claimed"] = observations()
         if th is not None:
             th.join()
             stats = handle_verdicts(run, conds, verdicts)
-            run.extra["chx_stats"] = {**stats, "conditions": sum(1 for c in conds if not c.twin),
-                                      "twins": sum(1 for c in conds if c.twin)}
+            run.extra["chx_stats"] = {**stats, "conditions": len(conds), "twins": len(conds)}
             if conds and stats["confirmed"] == 0 and not run.violations:
                 run.harness_error("no CrossHair condition was confirmed")
     finally:
